@@ -473,7 +473,7 @@ def gen_law_specs(seed, tier):
             base = [b * rnd.choice([1, 2, Fraction(1, 2)]) for b in base]
         return {c: C.enc(b) for c, b in zip(cands, base)}
 
-    def mk_params(nb, sizes, cohesions):
+    def mk_params(nb, sizes, cohesions, name_model=False):
         blocs = ["W", "C"][:nb]
         slates = {b: [f"{b}{i + 1}" for i in range(sizes[j])] for j, b in enumerate(blocs)}
         props = {"W": C.enc(Fraction(rnd.choice([1, 2, 3]), 4))} if nb == 2 else {"W": 1}
@@ -487,6 +487,10 @@ def gen_law_specs(seed, tier):
                 o = blocs[1 - j]
                 coh[b] = {b: C.enc(cohesions[j]), o: C.enc(1 - cohesions[j])}
         iv = {b: {b: skew(slates[b]), **{o: skew(slates[o]) for o in blocs if o != b}} for b in blocs}
+        if nb == 2 and name_model and rnd.random() < 0.7:
+            # same parameter set, inner dictionaries written in another key order
+            b = rnd.choice(blocs)
+            coh[b] = {k: coh[b][k] for k in reversed(list(coh[b]))}
         return {"slates": slates, "prop": props, "cohesion": coh, "intervals": iv}
 
     def three_bloc_params(rnd_):
@@ -523,7 +527,7 @@ def gen_law_specs(seed, tier):
                 nb, sizes = 2, [2, 2] if model == "AlternatingCrossover" or k % 2 else [3, 2]
             else:
                 nb, sizes = 2, rnd.choice([[2, 2], [3, 1], [2, 1]])
-            p = mk_params(nb, sizes, cohs)
+            p = mk_params(nb, sizes, cohs, name_model=model in ("name_PlackettLuce", "name_BradleyTerry", "name_Cumulative", "short_name_PlackettLuce", "name_BradleyTerry_MCMC"))
             if model == "slate_PlackettLuce" and k % 2 == 1:
                 p = three_bloc_params(rnd)
             extra = {}
